@@ -111,6 +111,11 @@ pub enum Surgery {
     /// prefix names are long and (depending on `variant`) non-ASCII: Cyrillic, CJK, astral,
     /// or mixed with ASCII so that byte-length limits fall inside a multi-byte character.
     LongNames { variant: u64 },
+    /// For a variable font: replace GDEF by a version 1.3 table with an ItemVariationStore (two
+    /// regions over the font's axes) and GPOS by a `kern` SinglePos (format 1 or 2) and PairPos
+    /// lookup whose value records carry VariationIndex device tables into that store.
+    /// No corpus font has variable GPOS data.
+    InstallVarGpos { glyphs: Vec<u16>, variant: u64 },
     /// Re-pack `hmtx` with only `num_h_metrics` long metrics (glyphs after that take the last
     /// advance and keep their side bearing) and update `hhea`. Every corpus CFF2 font and most
     /// others have numberOfHMetrics == numGlyphs, which hides the compact form from the writers.
